@@ -95,7 +95,7 @@ func ParseByteUnit(str string) (uint64, error) {
 	return 0, errors.New(tr.Tr.Get("unknown unit: %q", str))
 }
 
-var sizes = []string{"B", "KB", "MB", "GB", "TB", "PB"}
+var sizes = []string{"B", "KB", "MB", "GB", "TB", "PB", "EB"}
 
 // FormatBytes outputs the given number of bytes "s" as a human-readable string,
 // rounding to the nearest half within .01.
